@@ -34,8 +34,9 @@ static void st_op(void *o, int k) { if (k == 0) ascon_permute(o, 0); else if (k 
 static void st_fin(void *o) { ascon_free(o); }
 
 #define INC(n, T) \
-static void inc##n##_init(void *o) { T##_aead_init(o, S->nonce, S->key); T##_aead_start(o, S->ad, 9); } \
-static void inc##n##_op(void *o, int k) { if (k == 0) T##_aead_encrypt_block(o, S->msg, sink, 21); else if (k == 1) T##_aead_decrypt_block(o, S->msg, sink, 16); else if (k == 2) { T##_aead_encrypt_finalize(o, sink); T##_aead_start(o, S->ad, 3); } else T##_aead_reinit(o, S->nonce, S->key); } \
+static int inc##n##_re; /* re-initialisations so far in this history: the first with NULL key and nonce (= all-zero, the object's key / nonce / position fields then read as a freed object's), the next with values, and so on */ \
+static void inc##n##_init(void *o) { inc##n##_re = 0; T##_aead_init(o, S->nonce, S->key); T##_aead_start(o, S->ad, 9); } \
+static void inc##n##_op(void *o, int k) { if (k == 0) T##_aead_encrypt_block(o, S->msg, sink, 21); else if (k == 1) T##_aead_decrypt_block(o, S->msg, sink, 16); else if (k == 2) { T##_aead_encrypt_finalize(o, sink); T##_aead_start(o, S->ad, 3); } else { if (inc##n##_re++ & 1) T##_aead_reinit(o, S->nonce, S->key); else T##_aead_reinit(o, 0, 0); } } \
 static void inc##n##_fin(void *o) { T##_aead_free(o); }
 INC(128, ascon128) INC(128a, ascon128a) INC(80pq, ascon80pq)
 
